@@ -38,6 +38,7 @@ K_OPENFAIL = "fd:cg_open-fails-after-cgio-open"        # cg_open returns CG_ERRO
 K_ADFCYCLE_LEAK = "fd:adf-link-cycle-keeps-files-open"  # (repaired close only) reference-count cycle
 K_SAVEAS = "fd:cg_save_as-fails-after-cgio-open"       # cg_save_as returns CG_ERROR and keeps the output file open
 K_FAILIDS = "h5id:failed-read-without-type-keeps-ids"  # ADFH_Read_*_Data: m_data_type == NULL returns with the dataset and group ids open
+K_KIDSIDS = "h5id:children-ids-nothing-found-keeps-group"  # ADFH_Children_IDs: nothing in the range asked for -> returns without H5Gclose
 K_H5TWICE = "fd:hdf5-same-file-opened-twice"           # ADFH get_file_id picks the other handle's file id: the second close fails (95)
 
 
@@ -105,7 +106,10 @@ DTYPES = ["C1", "B1", "I4", "U4", "I8", "U8", "R4", "R8", "X4", "X8"]          #
 BAD_ENTRIES = ["rall", "rblock", "rdata", "wall", "wallt", "wblock", "wdata", "wdatat"]
 BAD_CLASSES = ["badtype", "nulltype", "mismatch", "start0", "endbig", "startgtend", "stride0", "mstart0", "mendbig", "mstride0", "rank0", "rank2", "msmall"]
 STRAND_KINDS = ["dataset", "group", "attr", "datatype"]
-NOTABLE = ("data ", "bad ", "strand ", "multi ")             # operations that touch no handle table (not given to the model)
+# refused node-level calls (harness op "badnode")
+BADNODE_CALLS = ["kids_leaf", "kids_past", "names_leaf", "names_past", "getid_missing", "label_long", "name_dup", "name_long", "dims_type",
+                 "dims_rank", "linksize_nolink", "getlink_nolink", "newnode_dup", "newnode_type", "move_missing", "delete_notchild"]
+NOTABLE = ("data ", "bad ", "strand ", "multi ", "badnode ")             # operations that touch no handle table (not given to the model)
 MLL_DTYPES = ["Integer", "LongInteger", "RealSingle", "RealDouble", "Character", "ComplexSingle", "ComplexDouble"]
 
 
@@ -159,7 +163,9 @@ def gen_io(rng, big=False):
             ops.append("bad %d %s %s" % (rng.randint(1, max(1, nopen)), rng.choice(BAD_ENTRIES), rng.choice(BAD_CLASSES)))
         elif r < 0.84:
             ops.append("strand %d %s" % (rng.randint(1, max(1, nopen)), rng.choice(STRAND_KINDS)))
-        elif r < 0.86:
+        elif r < 0.855:
+            ops.append("badnode %d %s" % (rng.randint(1, max(1, nopen)), rng.choice(BADNODE_CALLS)))
+        elif r < 0.875:
             n1 = rng.choice([1, 3, 8, 60])
             ops.append("multi %d %s %d %d %d" % (rng.randint(1, max(1, nopen)), rng.choice(DTYPES), n1, n1 + rng.choice([1, 5, 200]), rng.randint(1, 3)))
         else:
@@ -324,7 +330,14 @@ def io_oracle(r):
                         {"problem": "a failing open changed the descriptor / HDF5 id count", "before": prev["raw"], "after": l,
                          "op": " ".join(op)}))
             break
-        if d["res"].startswith("bad ") and "ids+" in d["res"] and not d["res"].endswith("ids+0") and not idsflag:
+        if d["res"].startswith("badnode ") and "ids+" in d["res"] and not d["res"].endswith("ids+0") and op[0] == "badnode" and op[2] != "newnode_type" \
+                and ("n", op[2][:4]) not in idsflag:
+            # (newnode_type: cgio_new_node creates the node, stores its id through the caller's pointer and then refuses the type:
+            #  known as C12 cgio_new_node:args:node-created-before-validation; the id is the caller's)
+            idsflag.append(("n", op[2][:4]))
+            bad.append((K_KIDSIDS if (op[2].startswith("kids_") and d["res"].startswith("badnode err")) else None,
+                        {"problem": "a refused node-level call left HDF5 identifiers open", "op": " ".join(op), "answer": d["res"], "after": l}))
+        if d["res"].startswith("bad ") and "ids+" in d["res"] and not d["res"].endswith("ids+0") and 1 not in idsflag:
             # the call itself (measured around it in the harness) left HDF5 identifiers open; reported once per session, and the
             # session goes on: the close must release them all the same
             idsflag.append(1)
@@ -422,9 +435,9 @@ def heap_slope(lines, warm=1):
 
 # ----------------------------------------------------------------------------------------------- MLL level
 SPECIAL = {10: "missing", 11: "garbage", 12: "badver", 13: "twovers", 14: "badbase", 15: "badzone", 16: "dir", 17: "h5plain", 18: "empty",
-           99: "missing"}      # 99: the harness opens a name that is too long; 30..: files supplied by the driver (refused_pool)
+           19: "ivers", 99: "missing"}      # 99: the harness opens a name that is too long; 30..: files supplied by the driver (refused_pool)
 READOFF = {17, 18}             # outcome class (refused in cgio_open_file / later) read off the table, as for supplied files
-LATE = {"badver", "twovers", "badbase", "badzone"}
+LATE = {"badver", "twovers", "badbase", "badzone", "ivers"}
 
 
 def gen_mll(rng, backend, big=False):
@@ -494,6 +507,7 @@ def gen_mll(rng, backend, big=False):
                 "array %d 1 A_%s %s %d" % (h, rng.choice(MLL_DTYPES), rng.choice(MLL_DTYPES), rng.choice([2, 9])),
                 "array %d 1 New_%s %s 4" % ((h,) + (rng.choice(MLL_DTYPES),) * 2),
                 "fill %d 1 %s %d" % (h, rng.choice(FD_KINDS), rng.choice([1, 3, 9])), "drain %d 1 %s" % (h, rng.choice(FD_KINDS)),
+                "rtypes %d 1 array A_%s" % (h, rng.choice(MLL_DTYPES)), "rtypes %d 1 coord CoordinateX" % h, "rtypes %d 1 field Density" % h,
                 "drain %d 1 %s" % (h, rng.choice(FD_KINDS[:5])),
                 "desc %d 1 Extra text" % h, "sol %d 1 1 SolNew" % h, "delete %d 1 Info" % h, "base %d Another" % h,
                 "save %d 2%d %s %d" % (h, rng.randint(0, 1), rng.choice(["adf", "hdf5"]), rng.randint(0, 1))]))
@@ -700,6 +714,8 @@ CORPUS_IO = [("world ok,ok 0>1", ["open 0 r", "node 1 1", "close 1"]),
              ("world ok,ok -", ["open 0 m"] + ["data 1 %s %d %s" % (t, n, h) for t in DTYPES for (n, h) in ((7, "all"), (8, "block"), (9, "strided"))] + ["close 1"]),
              # failing data calls, systematically: each entry point with each class of invalid argument, the file closed after each
              ] + [("world ok,ok 0>1", [o for k in BAD_CLASSES for o in ("open 0 m", "bad 1 %s %s" % (e, k), "close 1")]) for e in BAD_ENTRIES] + [
+             # refused node-level calls, each followed by the close, in modify and in read mode
+             ("world ok,ok 0>1", [o for m in "mr" for k in BADNODE_CALLS for o in ("open 0 %s" % m, "badnode 1 %s" % k, "close 1")]),
              # identifiers of each kind abandoned on the file (HDF5): the close frees every open access, in write and in read mode
              ("world ok,ok 0>1", [o for k in STRAND_KINDS for o in ("open 0 m", "strand 1 %s" % k, "close 1")] +
                                  [o for k in STRAND_KINDS for o in ("open 0 r", "strand 1 %s" % k, "strand 1 %s" % k, "close 1")]),
@@ -928,7 +944,7 @@ def gen_mll_refused(rng, chosen, backend, k=2):
     """MLL level: cg_open of refused files (every special kind of the harness, the name that is too long, nx files of the pool incl.
     those refused only behind cgio_open_file) k times each, read and modify mode, between opens / reads / closes of a good file"""
     files = {30 + i: f["data"] for i, f in enumerate(chosen)}
-    special = [10, 11, 12, 13, 14, 15, 16, 17, 18, 99]
+    special = [10, 11, 12, 13, 14, 15, 16, 17, 18, 19, 99]
     todo = [f for f in (sorted(files) + special) for _ in range(k)]
     rng.shuffle(todo)
     body = ["open 0 1 w"] + W + ["close 0", "open 0 1 r"]
@@ -944,6 +960,28 @@ def gen_mll_refused(rng, chosen, backend, k=2):
     prep = ["ftype " + backend] + ["prep %d %s %s" % (f, SPECIAL[f], backend) for f in special if SPECIAL[f] != "missing"]
     return {"prep": prep, "body": body, "backend": backend, "shape": "refused-opens", "nfiles": 1, "files": files,
             "file_desc": {str(30 + i): "%s: %s" % (f["base"], f["desc"]) for i, f in enumerate(chosen)}}
+
+
+def read_matrix(backend, mode="r"):
+    """every stored data type (arrays under a UserDefinedData_t, coordinates and fields of a zone and of a particle zone, written
+    through the typed writers; the types a writer refuses are refused calls too) read back through every reading entry point
+    of its kind -- cg_array_read_as / cg_array_general_read, cg_coord_read / cg_coord_general_read, cg_field_read /
+    cg_field_general_read, cg_particle_coord_read / _general_read, cg_particle_field_read / _general_read -- with every memory
+    data type (incl. the null and user-defined codes), over the full range, a part of the file range and a part of a larger
+    memory array (harness op rtypes: 9 memory types x 4 accesses per stored array).  Accepted or refused, a read leaves
+    nothing behind: repeated under LeakSanitizer and the heap slope."""
+    body = ["open 0 1 w", "base 0 Base", "zone 0 1 Zone1 3", "sol 0 1 1 Sol1", "fill 0 1 pzone 1", "psol 0 1 PSol"]
+    for t in MLL_DTYPES:
+        body.append("array 0 1 A_%s %s 9" % (t, t))
+        body += ["tdata 0 1 %s %s" % (k, t) for k in ("coord", "field", "pcoord", "pfield")]
+    body += ["close 0", "open 0 1 %s" % mode]
+    for t in MLL_DTYPES:
+        body.append("rtypes 0 1 array A_%s" % t)
+        body += ["rtypes 0 1 %s T_%s" % (k, t) for k in ("coord", "field", "pcoord", "pfield")]
+    body.append("close 0")
+    sc = _sc(backend, [], body)
+    sc["shape"] = "read-matrix"
+    return sc
 
 
 def long_session(backend):
@@ -1156,6 +1194,7 @@ def run(ck):
     # sizes around the growth steps of the zone maps (8, 16, 32, ... slots, two thirds usable)
     fd += [fill_drain(be, v, n, ["zone", "pzone"]) for be in ("adf", "hdf5") for v in ("same", "reopen") for n in ((1, 5, 6, 11, 22, 300) if big else (1, 6, 43))]
     nfd = len(fd)
+    fd += [read_matrix(be, m) for be in ("adf", "hdf5") for m in ("r", "m")]
     fd += [gen_mll_refused(ck.rng, pick["mll-" + be].take(16), be) for be in ("adf", "hdf5") for _ in range(6 if big else 2)]
     stats["refused_pool"]["groups"] = {k: len(v.groups) for k, v in pick.items()}
     stats["refused_pool"]["groups_used_at_least_once"] = {k: len(v.used) for k, v in pick.items()}
